@@ -426,3 +426,32 @@ def _unpack_sources(name, fr, F, seen, depth):
 
 def prov_has(prov, kind, pred):
     return any(k == kind and pred(v) for k, v in prov)
+
+
+def implied_atoms(test, label):
+    """Atomic facts implied by taking branch `label` ('T'/'F') of `test`:
+    a list of (expr, truth).  `a or b` false => both false; `a and b` true
+    => both true; `not x` flips."""
+    truth = (label == 'T')
+    out = []
+
+    def visit(e, t):
+        if isinstance(e, ast.UnaryOp) and isinstance(e.op, ast.Not):
+            visit(e.operand, not t)
+        elif isinstance(e, ast.BoolOp) and isinstance(e.op, ast.Or):
+            if not t:
+                for v in e.values:
+                    visit(v, False)
+            else:
+                out.append((e, True))
+        elif isinstance(e, ast.BoolOp) and isinstance(e.op, ast.And):
+            if t:
+                for v in e.values:
+                    visit(v, True)
+            else:
+                out.append((e, False))
+        else:
+            out.append((e, t))
+
+    visit(test, truth)
+    return out
